@@ -28,9 +28,10 @@ VARIABLES rpos, wpos, used,  \* BufferState
           produced, consumed,\* absolute counts
           wwin,              \* live write window: <<>> or <<start, len>>
           rwin,              \* live read window: <<>> or <<start, len, contents, tags>>
+          wstale,            \* a second, older write window still held: <<>> or <<start, len>>
           poisoned
 
-vars == <<rpos, wpos, used, mem, tags, produced, consumed, wwin, rwin, poisoned>>
+vars == <<rpos, wpos, used, mem, tags, produced, consumed, wwin, rwin, wstale, poisoned>>
 
 Cells == 0 .. (Cap - 1)
 Free  == Cap - used
@@ -40,7 +41,7 @@ Init == /\ rpos = 0 /\ wpos = 0 /\ used = 0
         /\ mem = [c \in Cells |-> 0]
         /\ tags = [c \in Cells |-> <<>>]
         /\ produced = 0 /\ consumed = 0
-        /\ wwin = <<>> /\ rwin = <<>>
+        /\ wwin = <<>> /\ rwin = <<>> /\ wstale = <<>>
         /\ poisoned = FALSE
 
 ---------------------------------------------------------------------------
@@ -61,9 +62,9 @@ TagList(start, len, k) ==
 
 ---------------------------------------------------------------------------
 AcqW ==
-  /\ ~poisoned /\ wwin = <<>>
+  /\ ~poisoned /\ wwin = <<>> /\ wstale = <<>>
   /\ wwin' = <<wpos, Free>>
-  /\ UNCHANGED <<rpos, wpos, used, mem, tags, produced, consumed, rwin, poisoned>>
+  /\ UNCHANGED <<rpos, wpos, used, mem, tags, produced, consumed, rwin, poisoned, wstale>>
 
 (* The client writes k <= window length samples starting at the window     *)
 (* start, then commits n <= k of them with tags tg: a sequence of          *)
@@ -89,31 +90,32 @@ Commit(k, n, tg) ==
   /\ used' = used + n
   /\ produced' = produced + n
   /\ wwin' = <<>>
-  /\ UNCHANGED <<rpos, consumed, rwin, poisoned>>
+  /\ UNCHANGED <<rpos, consumed, rwin, poisoned, wstale>>
 
 (* produce(0, no tags): returns before taking the lock. Window is dropped. *)
 CommitZero ==
   /\ ~poisoned /\ wwin # <<>>
   /\ wwin' = <<>>
-  /\ UNCHANGED <<rpos, wpos, used, mem, tags, produced, consumed, rwin, poisoned>>
+  /\ UNCHANGED <<rpos, wpos, used, mem, tags, produced, consumed, rwin, poisoned, wstale>>
 
 (* Dropping a window without committing.                                   *)
 DropW ==
   /\ ~poisoned /\ wwin # <<>>
   /\ wwin' = <<>>
-  /\ UNCHANGED <<rpos, wpos, used, mem, tags, produced, consumed, rwin, poisoned>>
+  /\ UNCHANGED <<rpos, wpos, used, mem, tags, produced, consumed, rwin, poisoned, wstale>>
 
 (* produce(n) with n larger than what is free: assert inside the lock.     *)
 CommitRefused(n) ==
   /\ ~poisoned /\ wwin # <<>>
   /\ n > Free
   /\ poisoned' = TRUE /\ wwin' = <<>>
-  /\ UNCHANGED <<rpos, wpos, used, mem, tags, produced, consumed, rwin>>
+  /\ UNCHANGED <<rpos, wpos, used, mem, tags, produced, consumed, rwin, wstale>>
 
 AcqR ==
   /\ ~poisoned /\ rwin = <<>>
+  /\ ~(wwin # <<>> /\ wstale # <<>>)   \* at most four references to the buffer
   /\ rwin' = <<rpos, used, Contents(rpos, used), TagList(rpos, used, 1)>>
-  /\ UNCHANGED <<rpos, wpos, used, mem, tags, produced, consumed, wwin, poisoned>>
+  /\ UNCHANGED <<rpos, wpos, used, mem, tags, produced, consumed, wwin, poisoned, wstale>>
 
 Consume(m) ==
   /\ ~poisoned /\ rwin # <<>>
@@ -125,18 +127,36 @@ Consume(m) ==
   /\ used' = used - m
   /\ consumed' = consumed + m
   /\ rwin' = <<>>
-  /\ UNCHANGED <<wpos, mem, produced, wwin, poisoned>>
+  /\ UNCHANGED <<wpos, mem, produced, wwin, poisoned, wstale>>
 
 DropR ==
   /\ ~poisoned /\ rwin # <<>>
   /\ rwin' = <<>>
-  /\ UNCHANGED <<rpos, wpos, used, mem, tags, produced, consumed, wwin, poisoned>>
+  /\ UNCHANGED <<rpos, wpos, used, mem, tags, produced, consumed, wwin, poisoned, wstale>>
 
 ConsumeRefused(m) ==
   /\ ~poisoned /\ rwin # <<>>
   /\ m > used
   /\ poisoned' = TRUE /\ rwin' = <<>>
-  /\ UNCHANGED <<rpos, wpos, used, mem, tags, produced, consumed, wwin>>
+  /\ UNCHANGED <<rpos, wpos, used, mem, tags, produced, consumed, wwin, wstale>>
+
+(* The stream API allows a second write window while the first is still   *)
+(* held (the reference count check admits it when no read window is live). *)
+(* The older window is then stale; the only thing the model says about it  *)
+(* is that a commit through it larger than what is free NOW is refused.    *)
+AcqW2 ==
+  /\ ~poisoned /\ wwin # <<>> /\ wstale = <<>> /\ rwin = <<>>
+  /\ wstale' = <<wpos, Free>>
+  /\ UNCHANGED <<rpos, wpos, used, mem, tags, produced, consumed, wwin, rwin, poisoned>>
+StaleCommitRefused(n) ==
+  /\ ~poisoned /\ wstale # <<>> /\ wwin = <<>>
+  /\ n <= wstale[2] /\ n > Free
+  /\ poisoned' = TRUE /\ wstale' = <<>>
+  /\ UNCHANGED <<rpos, wpos, used, mem, tags, produced, consumed, wwin, rwin>>
+DropStale ==
+  /\ ~poisoned /\ wstale # <<>>
+  /\ wstale' = <<>>
+  /\ UNCHANGED <<rpos, wpos, used, mem, tags, produced, consumed, wwin, rwin, poisoned>>
 
 ---------------------------------------------------------------------------
 (* Tag placements explored: at most MaxTags tags per commit, on any        *)
@@ -158,6 +178,8 @@ Next ==
   \/ \E m \in 0 .. Cap : Consume(m)
   \/ DropR
   \/ \E m \in 1 .. (Cap + 1) : ConsumeRefused(m)
+  \/ AcqW2 \/ DropStale
+  \/ \E n \in 1 .. Cap : StaleCommitRefused(n)
 
 Spec == Init /\ [][Next]_vars
 
